@@ -28,7 +28,9 @@ import (
 	"go/parser"
 	"go/token"
 	"go/types"
+	"io"
 	"os"
+	"os/exec"
 	"path/filepath"
 	"sort"
 	"strings"
@@ -137,6 +139,13 @@ type Out struct {
 	Unknowns  []Unknown `json:"unknowns"`
 	SetupOnly []string  `json:"setupOnly"`
 	Vars      []string  `json:"vars"`
+	CallSites []CallJ   `json:"callSites"`
+}
+
+type CallJ struct {
+	Caller string `json:"caller"`
+	Callee string `json:"callee"`
+	Pos    string `json:"pos"`
 }
 
 // ---------------------------------------------------------------------------------------------------
@@ -247,7 +256,10 @@ func (i srcImporter) Import(path string) (*types.Package, error) {
 }
 
 func (w *World) load() error {
-	imp := importer.ForCompiler(w.fset, "source", nil).(types.ImporterFrom)
+	imp := w.exportImporter()
+	if imp == nil {
+		imp = importer.ForCompiler(w.fset, "source", nil).(types.ImporterFrom)
+	}
 	bctx := build.Default
 	bctx.BuildTags = []string{"verif"}
 	all := append(append([]string{}, varPkgs...), morePkgs...)
@@ -301,6 +313,40 @@ func (w *World) load() error {
 		}
 	}
 	return nil
+}
+
+// exportImporter resolves imports from compiler export data listed by one `go list -export -deps` call in the
+// repository (fast when the build cache is warm); nil if that does not work (then the source importer is used).
+func (w *World) exportImporter() types.ImporterFrom {
+	args := []string{"list", "-export", "-deps", "-tags", "verif", "-f", "{{.ImportPath}}\t{{.Export}}"}
+	for _, rel := range append(append([]string{}, varPkgs...), morePkgs...) {
+		args = append(args, "./"+rel)
+	}
+	cmd := exec.Command("go", args...)
+	cmd.Dir = w.repo
+	out, err := cmd.Output()
+	if err != nil {
+		fmt.Fprintln(os.Stderr, "extract15: go list -export failed, falling back to the source importer:", err)
+		return nil
+	}
+	files := map[string]string{}
+	for _, l := range strings.Split(string(out), "\n") {
+		f := strings.Split(l, "\t")
+		if len(f) == 2 && f[1] != "" {
+			files[f[0]] = f[1]
+		}
+	}
+	lookup := func(path string) (io.ReadCloser, error) {
+		if f, ok := files[path]; ok {
+			return os.Open(f)
+		}
+		return nil, fmt.Errorf("no export data for %s", path)
+	}
+	imp, ok := importer.ForCompiler(w.fset, "gc", lookup).(types.ImporterFrom)
+	if !ok {
+		return nil
+	}
+	return imp
 }
 
 func relPath(path string) string { return strings.TrimPrefix(path, module) }
@@ -2112,6 +2158,18 @@ func (w *World) output() *Out {
 		o.Vars = append(o.Vars, k)
 	}
 	sort.Strings(o.Vars)
+	o.CallSites = []CallJ{}
+	fs := w.allFuncs()
+	fks := make([]string, 0, len(fs))
+	for k := range fs {
+		fks = append(fks, k)
+	}
+	sort.Strings(fks)
+	for _, k := range fks {
+		for _, c := range fs[k].calls {
+			o.CallSites = append(o.CallSites, CallJ{Caller: k, Callee: c.callee, Pos: c.pos})
+		}
+	}
 	return o
 }
 
